@@ -85,6 +85,8 @@ var scanRules = map[string]scanRule{
 	"machine-graph": func(a *scandfa.Analysis) []*report.RuleResult {
 		return []*report.RuleResult{a.MachineGraph(graphOracle)}
 	},
+	"unget-spec":       func(a *scandfa.Analysis) []*report.RuleResult { return []*report.RuleResult{a.UngetSpec()} },
+	"num-spec":         func(a *scandfa.Analysis) []*report.RuleResult { return []*report.RuleResult{a.NumSpec()} },
 	"progress":         func(a *scandfa.Analysis) []*report.RuleResult { return []*report.RuleResult{a.Progress()} },
 }
 
